@@ -160,6 +160,10 @@ type c02World struct {
 	gateDimDropped bool
 	// `nodes` harness only: the cluster total comes from node events (verif_c02nodes_test.go); nil = set directly
 	nodes *c02NodeSet
+	// `move` harness only (verif_c02move_test.go): a lagging calculator node of a non-lending quota is excused as
+	// C02:nolend-request-not-pushed only when the quota's OWN limited request is the declared-derived one (the
+	// request was recomputed, just not pushed); a quota whose own request is off goes on to the full oracle
+	strictLag bool
 }
 
 func (w *c02World) byID(id int) *c02D {
@@ -621,8 +625,12 @@ func c02SpecCheck(h *vHarness, w *c02World, m *c02Mgr, r *vRand) bool {
 					continue
 				}
 				if tn := c02NodeOf(m, pname, d, q.name); tn != nil && !c02DLend(w, q) && tn.request != c02DLimitReq(w, q, d) {
-					lag = q
-					h.Tag("spec:nolend-node-request-lags")
+					if qi := m.gqm.quotaInfoMap[q.name]; w.strictLag && qi != nil && c02Val(qi.getLimitRequestNoLock(), d) != c02DLimitReq(w, q, d) {
+						h.Tag("move:own-request-off")
+					} else {
+						lag = q
+						h.Tag("spec:nolend-node-request-lags")
+					}
 				}
 				if c02Val(rts[q.id], d) != c02Val(frts[q.id], d) {
 					differs = true
